@@ -20,7 +20,7 @@ func runC09(c *Ctx) {
 	c.Rule("C09-R3", "match-time regexps only via strictRegex; wrapper groups the pattern", 8)
 	c.Rule("C09-R4", "label conditions see group labels", 5)
 	c.Rule("C09-R5", "Match.IsMatch: every condition field influences the result", 9)
-	c.Rule("C09-R6", "ignore dominates; any-match disjunction", 6)
+	c.Rule("C09-R6", "ignore dominates; any-match disjunction (isMatch evaluated on every shape of its block lists)", 25)
 	// the merged label view is computed per rule without touching the group: shared with C11-R3
 	defer c11Globals(c, "C09-R4")
 
@@ -285,109 +285,7 @@ func runC09(c *Ctx) {
 
 	// ---- R6 ----
 	if ism := c.MustFunc("C09-R6", "internal/config.isMatch"); ism != nil {
-		fl := p.NewFlow(ism)
-		sig := ism.Obj.Type().(*types.Signature)
-		ignoreP := sig.Params().At(paramIndex(sig, "ignore"))
-		matchP := sig.Params().At(paramIndex(sig, "match"))
-		// loops
-		var ignoreLoop, matchLoop *ast.RangeStmt
-		ast.Inspect(ism.Decl.Body, func(n ast.Node) bool {
-			if rs, ok := n.(*ast.RangeStmt); ok {
-				switch objOf(info, rs.X) {
-				case ignoreP:
-					ignoreLoop = rs
-				case matchP:
-					matchLoop = rs
-				}
-			}
-			return true
-		})
-		c.Check(ignoreLoop != nil && matchLoop != nil, "C09-R6", "isMatch:loops over ignore and match", ism.Decl.Pos(), "both loops", "isMatch no longer ranges over both ignore and match blocks")
-		if ignoreLoop != nil {
-			v, _ := ignoreLoop.Value.(*ast.Ident)
-			ok := false
-			if len(ignoreLoop.Body.List) == 1 && v != nil {
-				if ifs, isIf := ignoreLoop.Body.List[0].(*ast.IfStmt); isIf && ifs.Else == nil {
-					if call, isCall := ast.Unparen(ifs.Cond).(*ast.CallExpr); isCall && isCallTo(info, call, "internal/config.Match.IsMatch") {
-						if sel, isSel := call.Fun.(*ast.SelectorExpr); isSel && objOf(info, sel.X) == info.Defs[v] {
-							rets := returnsIn(ifs.Body.List)
-							ok = len(ifs.Body.List) == 1 && len(rets) == 1 && exprStr(rets[0].Results[0]) == "false"
-						}
-					}
-				}
-			}
-			c.Check(ok, "C09-R6", "isMatch:a matching ignore block returns false", ignoreLoop.Pos(), "ignore dominates", "a matching ignore block no longer leads straight to `return false`")
-		}
-		// found variable
-		var found types.Object
-		if matchLoop != nil {
-			v, _ := matchLoop.Value.(*ast.Ident)
-			stores := fl.Find(func(n ast.Node) bool {
-				as, ok := n.(*ast.AssignStmt)
-				return ok && len(as.Lhs) == 1 && len(as.Rhs) == 1 && exprStr(as.Rhs[0]) == "true" && info.TypeOf(as.Lhs[0]).String() == "bool"
-			})
-			for _, s := range stores {
-				as := s.Inner.(*ast.AssignStmt)
-				found = objOf(info, as.Lhs[0])
-				dom := v != nil && fl.Dominated(s.Site, nil, func(a Atom) bool {
-					call, ok := ast.Unparen(a.E).(*ast.CallExpr)
-					if !ok || !a.Truth || !isCallTo(info, call, "internal/config.Match.IsMatch") {
-						return false
-					}
-					sel, ok := call.Fun.(*ast.SelectorExpr)
-					return ok && objOf(info, sel.X) == info.Defs[v]
-				})
-				c.Check(dom, "C09-R6", "isMatch:found=true only after a matching match block", as.Pos(), "guarded by match.IsMatch", "`found` is set without a matching match block")
-			}
-			c.Check(len(stores) >= 1, "C09-R6", "isMatch:match result recorded", matchLoop.Pos(), "found flag", "no boolean records that a match block matched")
-		}
-		// return true
-		rets := fl.Find(func(n ast.Node) bool {
-			r, ok := n.(*ast.ReturnStmt)
-			return ok && len(r.Results) == 1 && exprStr(r.Results[0]) == "true"
-		})
-		c.Check(len(rets) >= 1, "C09-R6", "isMatch:has a positive exit", ism.Decl.Pos(), "return true", "no `return true`")
-		for _, r := range rets {
-			target := r.Site
-			escapes, _ := fl.Reach(fl.Entry(), func(s Site) bool { return s == target }, false, PathQ{Cut: func(atoms []Atom) bool {
-				for _, a := range atoms {
-					if a.Tag != nil {
-						continue
-					}
-					e := ast.Unparen(a.E)
-					if found != nil && objOf(info, e) == found && a.Truth {
-						return true
-					}
-					if be, ok := e.(*ast.BinaryExpr); ok {
-						if call, ok := be.X.(*ast.CallExpr); ok && exprStr(call.Fun) == "len" && objOf(info, call.Args[0]) == matchP {
-							if k, isC := constInt(info, be.Y); isC && k == 0 {
-								empty := (be.Op == token.EQL && a.Truth) || ((be.Op == token.GTR || be.Op == token.NEQ) && !a.Truth)
-								if empty {
-									return true
-								}
-							}
-						}
-					}
-				}
-				return false
-			}})
-			c.Check(!escapes, "C09-R6", "isMatch:return true only with no match blocks or after a match", r.Inner.Pos(), "dominated", "`return true` is reachable with match blocks present and none matching")
-		}
-		// no other writes to found besides declaration
-		if found != nil {
-			nW := 0
-			ast.Inspect(ism.Decl.Body, func(n ast.Node) bool {
-				if as, ok := n.(*ast.AssignStmt); ok {
-					for _, l := range as.Lhs {
-						if objOf(info, l) == found {
-							nW++
-						}
-					}
-				}
-				return true
-			})
-			c.Check(nW == 1, "C09-R6", "isMatch:found has one writer", found.Pos(), "single store", itoa(nW)+" stores to the found flag")
-		}
+		c09IsMatchSemantics(c, ism)
 	}
 	// ignore blocks are used as configured (no state default), match blocks go through defaultRuleMatch
 	if npr := c.MustFunc("C09-R2", "internal/config.newParsedRule"); npr != nil {
@@ -411,21 +309,42 @@ func runC09(c *Ctx) {
 		entryP := sig.Params().At(paramIndex(sig, "e"))
 		mim := p.Func("internal/config.Match.IsMatch")
 		n, good := 0, 0
-		ast.Inspect(ism.Decl.Body, func(nd ast.Node) bool {
-			call, ok := nd.(*ast.CallExpr)
-			if !ok || mim == nil || Callee(info, call) != mim.Obj {
-				return true
-			}
-			n++
-			i := paramIndex(mim.Obj.Type().(*types.Signature), "path")
-			j := paramIndex(mim.Obj.Type().(*types.Signature), "e")
-			if i >= 0 && j >= 0 && fieldSel(info, call.Args[i], "internal/discovery.Path", "Name") && objOf(info, call.Args[j]) == entryP {
-				if r, _, _ := accessPath(info, call.Args[i]); r == entryP {
-					good++
+		// in isMatch itself, and in helpers of the package it hands the entry to (the helper's
+		// parameter then stands for the entry)
+		var scan func(body ast.Node, entry types.Object, depth int)
+		scan = func(body ast.Node, entry types.Object, depth int) {
+			ast.Inspect(body, func(nd ast.Node) bool {
+				call, ok := nd.(*ast.CallExpr)
+				if !ok || mim == nil {
+					return true
 				}
-			}
-			return true
-		})
+				fn := Callee(info, call)
+				if fn == mim.Obj {
+					n++
+					i := paramIndex(mim.Obj.Type().(*types.Signature), "path")
+					j := paramIndex(mim.Obj.Type().(*types.Signature), "e")
+					if i >= 0 && j >= 0 && fieldSel(info, call.Args[i], "internal/discovery.Path", "Name") && objOf(info, call.Args[j]) == entry {
+						if r, _, _ := accessPath(info, call.Args[i]); r == entry {
+							good++
+						}
+					}
+					return true
+				}
+				if hf := p.FuncOf(fn); hf != nil && depth < 2 && hf.Pkg == ism.Pkg && hf != ism && hf.Decl.Body != nil && hf.Decl.Recv == nil {
+					k := 0
+					for _, f := range hf.Decl.Type.Params.List {
+						for _, nm := range f.Names {
+							if k < len(call.Args) && objOf(info, call.Args[k]) == entry {
+								scan(hf.Decl.Body, info.Defs[nm], depth+1)
+							}
+							k++
+						}
+					}
+				}
+				return true
+			})
+		}
+		scan(ism.Decl.Body, entryP, 0)
 		c.Check(n >= 2 && n == good, "C09-R3", "isMatch:path conditions evaluated on e.Path.Name", ism.Decl.Pos(), itoa(good)+" call(s)", "path conditions are not evaluated against the entry's Path.Name ("+itoa(good)+"/"+itoa(n)+" calls)")
 	}
 	// isMatch is what GetChecksForEntry and parsedRule.isEnabled use
